@@ -329,6 +329,32 @@ func runC14(c c14Case) error {
 		if staleErr != nil {
 			return staleErr
 		}
+		// two targeters over the same document, alive at the same time and called in turn (two attacks in one process):
+		// each hands out the whole list, neither disturbs the other
+		var pairErr error
+		if err := c14Drain(c, format, func(b []byte, h http.Header) vegeta.Targeter {
+			ta, tb := mkT(b, h), mkT(b, h)
+			return func(t *vegeta.Target) error {
+				var y vegeta.Target
+				errB := tb(&y)
+				errA := ta(t)
+				if pairErr == nil {
+					if (errA == nil) != (errB == nil) {
+						pairErr = fmt.Errorf("%s: two targeters over one document called in turn: one returned %v, the other %v", format, errA, errB)
+					} else if errA == nil {
+						if d := c14TargetDiff(*t, y, nil); d != "" {
+							pairErr = fmt.Errorf("%s: two targeters over one document called in turn handed out different targets: %s", format, d)
+						}
+					}
+				}
+				return errA
+			}
+		}, nil); err != nil {
+			return fmt.Errorf("one of two targeters called in turn: %v", err)
+		}
+		if pairErr != nil {
+			return pairErr
+		}
 	}
 	// a body file names the bytes it holds when the target is decoded: a file that is rewritten between two
 	// targets referring to it (payloads streamed into a lazily read list) gives each target its own bytes
